@@ -216,15 +216,34 @@ def gen_blocks(rng, size):
         units.append(name)
     # quantities
     qn = []
+    qdims = {}
     for i, b in enumerate(bases):
         blocks.append("q%d ? %s" % (i, b))
         qn.append("q%d" % i)
+        qdims["q%d" % i] = {b: 1}
     for i in range(rng.randrange(1, 4)):
         a, b = rng.choice(qn), rng.choice(qn)
-        cand = "%s %s" % (a, b) if rng.random() < 0.5 else "%s / %s^%d" % (a, b, rng.randrange(2, 4))
+        if rng.random() < 0.5:
+            cand, e = "%s %s" % (a, b), 1
+        else:
+            e = -rng.randrange(2, 4)
+            cand = "%s / %s^%d" % (a, b, -e)
+        d = dict(qdims[a])
+        for k, p in qdims[b].items():
+            d[k] = d.get(k, 0) + p * e
+            if not d[k]:
+                del d[k]
+        # two quantities of one dimensionality conflict by design: keep the database valid
+        if not d or any(d == v for v in qdims.values()):
+            continue
         blocks.append("qq%d ? %s" % (i, cand))
-        # note: two quantities of one dimensionality conflict; keep only distinct shapes
         qn.append("qq%d" % i)
+        qdims["qq%d" % i] = d
+    # references to a base unit by its long name, from names sorting before and after the base unit's own name
+    for b in bases:
+        if any(bl.startswith("%s !%slong" % (b, b)) for bl in blocks):
+            blocks.append("aaa%s 3 %slong" % (b, b))
+            blocks.append("zzz%s 5 %slongs" % (b, b))
     # substances referring to units anywhere in the file
     for i in range(rng.randrange(1, 4)):
         u1, u2 = rng.choice(units), rng.choice(units)
@@ -246,8 +265,11 @@ def work_generated(idx, chunk, seed, shuffles):
             part.inconclusive_event("reference load gave no dump", {"dbseed": dbseed})
             continue
         if any(not res["ok"] for res in r0["results"]):
-            # e.g. two generated quantities with one dimensionality: not a uniquely-meaningful database
-            part.count("generated_db_rejected_in_file_order")
+            # the generator only emits valid, uniquely named definitions: a refusal is the loader's
+            part.evaluations += 1
+            part.violation({"kind": "valid_generated_database_rejected", "message": _fam(r0["results"][0].get("err", ""))},
+                           {"dbseed": dbseed, "err": r0["results"][0].get("err", "")[:500], "text": "\n".join(blocks)[:1500]},
+                           "a valid database of uniquely named definitions does not load (a reference does not resolve)")
             continue
         ref_c = canon(ref)
         part.count("generated_databases")
@@ -268,6 +290,12 @@ def work_generated(idx, chunk, seed, shuffles):
         part.sample({"kind": "generated database", "dbseed": dbseed, "definitions": len(blocks),
                      "orders": len(orders)})
     return part.export()
+
+
+def _fam(msg):
+    import re
+    line = (msg.split("\n") + ["", ""])[1]
+    return re.sub(r"\d+", "N", line)[:80]
 
 
 def dependency_reversed(entries):
